@@ -376,6 +376,15 @@ theorem lockfile_removed (K : Nat) (b : Bool) (s : State) (hr : Reach K b s) (hq
     obtain ⟨q, hqo⟩ := g.lockfile_open i hl
     have := hq q; revert this hqo; cases s.pc q <;> simp [idle, hasOpened]
 
+/-- **no deadlock**, with or without failures: as long as some caller has not returned, some caller that has not
+    returned can take a step (a caller blocked in `flock` waits for a holder that is itself able to move) -/
+theorem lock_no_deadlock (K : Nat) (b : Bool) (s : State) (hr : Reach K b s) (p : Nat)
+    (hp : ∀ ok, s.pc p ≠ .done ok) :
+    ∃ q s', (∀ ok, s.pc q ≠ .done ok) ∧ ExtractLock.step K s q false = some s' :=
+  progress hr p hp
+
+example : ∀ ok, init.pc 0 ≠ PC.done ok := by intro ok h; cases h
+
 /-- The unlink-after-unlock race.  Process 0 fails its download and releases: `LOCK_UN`, then `os.Remove`.
     Process 1 had opened the lock file before (inode 0) and gets the lock as soon as 0 unlocks; after 0's
     `os.Remove` process 2 creates a *new* lock file (inode 1) and locks it at once.  1 and 2 both extract. -/
